@@ -30,6 +30,10 @@ Proof. destruct a, b; cbn; try congruence; intros; f_equal; lia. Qed.
 Lemma flt_below_inf a : flt a PInf = true <-> exists k, a = Fin k.
 Proof. destruct a; cbn; split; try congruence; eauto; intros [k E]; discriminate. Qed.
 
+Lemma quad_eta {A B C D} (r : A * B * C * D) :
+  r = (fst (fst (fst r)), snd (fst (fst r)), snd (fst r), snd r).
+Proof. destruct r as [[[a b] c] d]. reflexivity. Qed.
+
 (* ------------------------------------------------------------------ *)
 (* small list facts *)
 Lemma last_snoc {A} (l : list A) x d : last (l ++ [x]) d = x.
@@ -495,3 +499,420 @@ Qed.
 
 End WithP.
 End RunFacts.
+
+(* ------------------------------------------------------------------ *)
+(* consequences for whole runs *)
+Section RunTheorems.
+Variable T : Type.
+Variable mts : option nat.
+Variable get_setting : nat -> list (setting * pyf) -> setting.
+Variable run : nat -> setting -> option (trial T).
+Variable sm : stopmode.
+Notation entry := (entry T).
+Notation serial := (serial T mts get_setting run sm).
+Notation replay := (replay T mts).
+
+Definition submitted_setting (id : nat) (s : setting) : Prop := exists h, s = get_setting id h.
+Lemma submitted_ask k h : submitted_setting k (get_setting k h).
+Proof. exists h. reflexivity. Qed.
+
+Lemma serial_inv n k step status st trace k' :
+  serial n k step init_state [] = (status, st, trace, k') -> inv T trace st.
+Proof.
+  intros H. apply (serial_spec T mts get_setting run sm submitted_setting submitted_ask) in H.
+  destruct H as (new & -> & Hrep & _). cbn. apply (inv_replay T mts), Hrep.
+Qed.
+
+Lemma serial_bounded n k step st0 status st trace k' :
+  serial n k step st0 [] = (status, st, trace, k') ->
+  k' - k <= n /\ length trace <= k' - k /\
+  (replay st0 trace = Some st) /\
+  ids T trace = seq k (length trace) /\
+  Forall (paired T run) trace /\
+  Forall (fun e => submitted_setting (e_id e) (e_setting e)) trace.
+Proof.
+  intros H. apply (serial_spec T mts get_setting run sm submitted_setting submitted_ask) in H.
+  destruct H as (new & -> & Hrep & Hk & Hlen & Hids & Hp & HP & _). cbn.
+  repeat split; try assumption; lia.
+Qed.
+
+Variable pre_dispatch : nat.
+Variable sched : nat -> list nat -> list bool.
+Notation par := (par T mts get_setting run sm pre_dispatch sched).
+
+Lemma NoDup_app_l {A} (l1 l2 : list A) : NoDup (l1 ++ l2) -> NoDup l1.
+Proof.
+  induction l1 as [|x l1 IH]; cbn; intros H; [constructor|].
+  inversion H as [|y l Hn Hd]; subst. constructor; [|apply IH, Hd].
+  intros Hin. apply Hn, in_or_app. left. exact Hin.
+Qed.
+
+(* every scheduler: the reported trials are distinct submissions of this search, each paired
+   with its own setting and its own result; the final state is the replay of the reports *)
+Lemma par_safety n k step st0 status st trace k' :
+  par n k step st0 [] [] = (status, st, trace, k') ->
+  k' - k <= n /\ length trace <= k' - k /\
+  replay st0 trace = Some st /\
+  NoDup (ids T trace) /\ (forall id, In id (ids T trace) -> k <= id < k') /\
+  Forall (paired T run) trace /\
+  Forall (fun e => submitted_setting (e_id e) (e_setting e)) trace.
+Proof.
+  intros H. apply (par_spec T mts get_setting run sm submitted_setting submitted_ask) in H; [|constructor].
+  destruct H as (new & rest & asked & -> & Hrep & Hk & Hasked & HPa & Hpm & Hpair & _). cbn [app] in *.
+  assert (Hfst : Permutation (ids T new ++ map fst rest) (seq k (k' - k))).
+  { rewrite <- Hasked. apply (Permutation_map fst) in Hpm. rewrite map_app, map_map in Hpm. exact Hpm. }
+  assert (Hnd : NoDup (ids T new ++ map fst rest)).
+  { eapply Permutation_NoDup; [apply Permutation_sym, Hfst|apply seq_NoDup]. }
+  split; [lia|]. split.
+  { apply Permutation_length in Hfst. rewrite app_length, seq_length in Hfst. unfold ids in Hfst.
+    rewrite map_length in Hfst. lia. }
+  split; [exact Hrep|]. split; [eapply NoDup_app_l, Hnd|]. split.
+  { intros id Hin. assert (In id (seq k (k' - k))).
+    { eapply Permutation_in; [exact Hfst|apply in_or_app; left; exact Hin]. }
+    apply in_seq in H. lia. }
+  split; [exact Hpair|].
+  apply Forall_forall. intros e He.
+  assert (Hin : In (e_id e, e_setting e) asked).
+  { eapply Permutation_in; [exact Hpm|]. apply in_or_app. left.
+    apply (in_map (fun e => (e_id e, e_setting e))) in He. exact He. }
+  eapply Forall_forall in HPa; [|exact Hin]. exact HPa.
+Qed.
+
+Lemma par_inv n k step status st trace k' :
+  par n k step init_state [] [] = (status, st, trace, k') -> inv T trace st.
+Proof. intros H. apply par_safety in H. apply (inv_replay T mts), H. Qed.
+
+(* a fair scheduler never leaves the search polling for ever, and when the search runs to the
+   end every submission is reported exactly once *)
+Lemma par_complete n k step st0 status st trace k' :
+  par n k step st0 [] [] = (status, st, trace, k') ->
+  (fair sched -> status <> Stuck) /\
+  (status = Done -> k' = k + n /\ Permutation (ids T trace) (seq k n)).
+Proof.
+  intros H. apply (par_spec T mts get_setting run sm submitted_setting submitted_ask) in H; [|constructor].
+  destruct H as (new & rest & asked & -> & Hrep & Hk & Hasked & HPa & Hpm & Hpair & Hdone & Hfair).
+  split; [exact Hfair|]. intros E. destruct (Hdone E) as [-> ->]. split; [reflexivity|].
+  rewrite app_nil_r in Hpm. cbn [app] in *. replace (k + n - k) with n in Hasked by lia. rewrite <- Hasked.
+  apply (Permutation_map fst) in Hpm. rewrite map_map in Hpm. exact Hpm.
+Qed.
+
+(* ---- a library that does not adapt (optlib='random'): the pool run reports a permutation of
+   the serial run's entries ---- *)
+Hypothesis non_adaptive : forall k h h', get_setting k h = get_setting k h'.
+
+Definition mk_entry (id : nat) : entry :=
+  (id, get_setting id [], match run id (get_setting id []) with Some tr => tr | None => failed_trial end).
+
+Lemma entries_determined (tr : list entry) :
+  Forall (paired T run) tr -> Forall (fun e => e_setting e = get_setting (e_id e) []) tr ->
+  tr = map mk_entry (ids T tr).
+Proof.
+  induction tr as [|e tr IH]; intros Hp Hs; [reflexivity|].
+  inversion Hp as [|? ? Hp1 Hp2]; subst. inversion Hs as [|? ? Hs1 Hs2]; subst.
+  cbn. f_equal; [|apply IH; assumption].
+  destruct e as [[id s] b]. unfold paired, e_id, e_setting, e_trial, mk_entry in *. cbn in *.
+  subst s. rewrite Hp1. reflexivity.
+Qed.
+
+Lemma par_is_permutation_of_serial n k st0 status st trace k' status_s st_s trace_s k_s :
+  par n k 0 st0 [] [] = (status, st, trace, k') -> status = Done ->
+  serial n k 0 st0 [] = (status_s, st_s, trace_s, k_s) -> status_s = Done ->
+  Permutation trace trace_s.
+Proof.
+  intros Hpar Ed Hser Es.
+  pose (P := fun (id : nat) (s : setting) => s = get_setting id []).
+  assert (P_ask : forall k h, P k (get_setting k h)) by (intros; apply non_adaptive).
+  pose proof (par_complete _ _ _ _ _ _ _ _ Hpar) as [_ Hc]. destruct (Hc Ed) as [_ Hperm].
+  apply (par_spec T mts get_setting run sm P P_ask) in Hpar; [|constructor].
+  destruct Hpar as (new & rest & asked & -> & _ & _ & _ & HPa & Hpm & Hpair & Hdone & _).
+  destruct (Hdone Ed) as [-> _]. rewrite app_nil_r in Hpm. cbn [app] in *.
+  apply (serial_spec T mts get_setting run sm P P_ask) in Hser.
+  destruct Hser as (news & -> & _ & _ & _ & Hids & Hpairs & HPs & Hd & _). destruct (Hd Es) as [_ Hlen].
+  cbn [app]. rewrite Hlen in Hids.
+  assert (HPn : Forall (fun e : entry => e_setting e = get_setting (e_id e) []) new).
+  { apply Forall_forall. intros e He.
+    assert (Hin : In (e_id e, e_setting e) asked).
+    { eapply Permutation_in; [exact Hpm|]. apply (in_map (fun e => (e_id e, e_setting e))) in He. exact He. }
+    eapply Forall_forall in HPa; [|exact Hin]. exact HPa. }
+  rewrite (entries_determined new Hpair HPn), (entries_determined news Hpairs HPs).
+  apply Permutation_map. rewrite Hids. exact Hperm.
+Qed.
+
+End RunTheorems.
+
+(* the best score is a function of the multiset of reported entries *)
+Lemma best_score_perm T tr1 st1 tr2 st2 :
+  inv T tr1 st1 -> inv T tr2 st2 -> Permutation tr1 tr2 -> best_score_of st1 = best_score_of st2.
+Proof.
+  intros I1 I2 Hp.
+  assert (Hs : forall x, In x (h_scores st1) <-> In x (h_scores st2)).
+  { intros x. rewrite (inv_scores _ _ _ I1), (inv_scores _ _ _ I2). unfold scores_of.
+    split; apply Permutation_in; [|apply Permutation_sym]; apply Permutation_map, Hp. }
+  assert (member : forall tr st, inv T tr st -> forall b s, h_best st = Some (b, s) ->
+            In (score_of b) (h_scores st) /\ flt (score_of b) PInf = true).
+  { intros tr st I b s E. pose proof (inv_best _ _ _ I) as IB. rewrite E in IB.
+    destruct IB as (i & id & Hn & Hf & _). split; [|exact Hf].
+    rewrite (inv_scores _ _ _ I). unfold scores_of. apply nth_error_In in Hn.
+    apply (in_map (fun e => score_of (e_trial e))) in Hn. exact Hn. }
+  pose proof (inv_best _ _ _ I1) as B1. pose proof (inv_best _ _ _ I2) as B2.
+  pose proof (inv_notnan _ _ _ I1) as N1. pose proof (inv_notnan _ _ _ I2) as N2.
+  pose proof (inv_min _ _ _ I1) as M1. pose proof (inv_min _ _ _ I2) as M2.
+  unfold best_score_of in *.
+  destruct (h_best st1) as [[b1 s1]|] eqn:E1, (h_best st2) as [[b2 s2]|] eqn:E2.
+  - destruct (member _ _ I1 _ _ E1) as [m1 _]. destruct (member _ _ I2 _ _ E2) as [m2 _].
+    apply flt_antisym_eq; [exact N1|exact N2| |].
+    + apply M2, Hs, m1.
+    + apply M1, Hs, m2.
+  - destruct (member _ _ I1 _ _ E1) as [m1 f1]. rewrite (B2 _ (proj1 (Hs _) m1)) in f1. discriminate.
+  - destruct (member _ _ I2 _ _ E2) as [m2 f2]. rewrite (B1 _ (proj2 (Hs _) m2)) in f2. discriminate.
+  - reflexivity.
+Qed.
+
+(* ------------------------------------------------------------------ *)
+(* failed trials *)
+Section Failed.
+Variable T : Type.
+Variable mts : option nat.
+Notation report := (report T mts).
+Notation assess := (assess T).
+Notation replay := (replay T mts).
+
+(* a trial that did not score below +inf: the dict of a failed trial, or a NaN score *)
+Definition not_scored (tr : trial T) : bool := negb (flt (score_of tr) PInf).
+
+Lemma flt_not_scored x y : flt x PInf = false -> flt x y = false.
+Proof. destruct x, y; cbn; congruence. Qed.
+
+Lemma failed_step st s tr st1 :
+  not_scored tr = true -> report st s tr = Some st1 ->
+  let st2 := assess st1 tr in
+  h_best st2 = h_best st /\ h_best_score st2 = h_best_score st /\ h_optlib st2 = h_optlib st /\
+  h_tsb st2 = S (h_tsb st) /\
+  h_methods st2 = h_methods st ++ [fst s] /\ h_params st2 = h_params st ++ [snd s] /\
+  h_scores st2 = h_scores st ++ [score_of tr].
+Proof.
+  unfold not_scored. intros Hf R. apply negb_true_iff in Hf.
+  unfold report in R. unfold score_of in *.
+  destruct (t_score tr) as [sc|] eqn:Esc, (t_flops tr), (t_write tr), (t_size tr); try discriminate.
+  injection R as <-. unfold assess, best_score_of, score_of. cbn. rewrite Esc.
+  assert (Hall : forall y, flt sc y = false) by (intro; apply flt_not_scored; exact Hf).
+  rewrite !Hall. rewrite andb_false_r. cbn. repeat split; reflexivity.
+Qed.
+
+Definition sim (a b : hstate T) : Prop := h_best a = h_best b /\ h_best_score a = h_best_score b.
+
+Lemma step_sim a b s tr a1 b1 :
+  sim a b -> report a s tr = Some a1 -> report b s tr = Some b1 -> sim (assess a1 tr) (assess b1 tr).
+Proof.
+  intros [Hb Hs] Ra Rb. unfold report in *.
+  destruct (t_score tr) as [sc|] eqn:Esc, (t_flops tr), (t_write tr), (t_size tr); try discriminate.
+  injection Ra as <-. injection Rb as <-. unfold sim, assess, best_score_of. cbn.
+  rewrite Hb, Hs. destruct (flt (score_of tr) match h_best b with Some (tr0, _) => score_of tr0 | None => PInf end);
+    cbn; rewrite ?last_snoc; split; reflexivity.
+Qed.
+
+Lemma report_total st st' s tr a : report st s tr = Some a -> exists b, report st' s tr = Some b.
+Proof.
+  unfold report. destruct (t_score tr), (t_flops tr), (t_write tr), (t_size tr); try discriminate.
+  intros _. eexists. reflexivity.
+Qed.
+
+(* dropping every trial that did not score changes neither the winner nor the best score *)
+Lemma failed_trials_filter tr : forall a b a',
+  sim a b -> replay a tr = Some a' ->
+  exists b', replay b (filter (fun e => negb (not_scored (e_trial e))) tr) = Some b' /\ sim a' b'.
+Proof.
+  induction tr as [|e tr IH]; intros a b a' S R; cbn in R.
+  - injection R as <-. exists b. split; [reflexivity|exact S].
+  - destruct (report a (e_setting e) (e_trial e)) as [a1|] eqn:Ra; [|discriminate]. cbn [filter].
+    destruct (not_scored (e_trial e)) eqn:F; cbn [negb].
+    + apply (IH _ b) in R; [exact R|].
+      destruct (failed_step _ _ _ _ F Ra) as (H1 & H2 & _). destruct S as [S1 S2].
+      split; congruence.
+    + destruct (report_total a b _ _ _ Ra) as [b1 Rb]. cbn [replay]. rewrite Rb.
+      eapply IH; [|exact R]. eapply step_sim; eassumption.
+Qed.
+
+(* nothing that did not score is ever handed to the hyper-parameter library: part of inv_optlib *)
+End Failed.
+
+(* ------------------------------------------------------------------ *)
+(* the trial pipeline *)
+Section PipelineFacts.
+Variable T : Type.
+Variable stats : T -> Z * Z * Z.
+Variable post : stage -> T -> res T.
+Variable score_basic : cost -> cost -> cost -> pyf.
+Variable score_limit : T -> pyf.
+Variable cstats : T -> Z * Z * Z.
+Variable score_comp : Z -> Z -> Z -> pyf.
+Variable score_custom : trial T -> res pyf.
+Variable finish : pyf -> pyf.
+Notation run_stage := (run_stage T stats post).
+Notation run_stages := (run_stages T stats post).
+Notation trial_fn := (trial_fn T stats post score_basic score_limit cstats score_comp score_custom finish).
+
+(* the dict describes its tree: recorded figures = contract_stats of trial["tree"] *)
+Definition describes (tr : trial T) : Prop :=
+  exists t, t_tree tr = Some t /\
+    t_flops tr = Some (Some (fst (fst (stats t)))) /\
+    t_write tr = Some (Some (snd (fst (stats t)))) /\
+    t_size tr = Some (Some (snd (stats t))).
+
+(* ... or carries no figures at all (only the tree) *)
+Definition bare (tr : trial T) : Prop :=
+  (exists t, t_tree tr = Some t) /\ t_flops tr = None /\ t_write tr = None /\ t_size tr = None.
+
+Lemma run_stage_describes s tr tr' :
+  updating s = true -> run_stage s tr = Ok tr' -> describes tr'.
+Proof.
+  unfold run_stage. destruct (t_tree tr) as [t|]; [|discriminate]. intros -> H.
+  destruct (post s t) as [t'| |]; cbn in H; try discriminate. injection H as <-.
+  unfold update_stats, describes. destruct (stats t') as [[f w] z] eqn:E. cbn.
+  exists t'. rewrite E. repeat split; reflexivity.
+Qed.
+
+Lemma run_stage_keeps s tr tr' :
+  updating s = false -> run_stage s tr = Ok tr' ->
+  (exists t', t_tree tr' = Some t') /\ t_flops tr' = t_flops tr /\ t_write tr' = t_write tr /\ t_size tr' = t_size tr.
+Proof.
+  unfold run_stage. destruct (t_tree tr) as [t|]; [|discriminate]. intros -> H.
+  destruct (post s t) as [t'| |]; cbn in H; try discriminate. injection H as <-. cbn.
+  split; [eexists; reflexivity|repeat split; reflexivity].
+Qed.
+
+Lemma run_stages_cons s ss r : run_stages (s :: ss) r = run_stages ss (rbind r (run_stage s)).
+Proof. reflexivity. Qed.
+Lemma run_stages_nil r : run_stages [] r = r.
+Proof. reflexivity. Qed.
+
+Lemma run_stages_err ss : run_stages ss RaiseErr = RaiseErr /\ run_stages ss RaiseBad = RaiseBad.
+Proof. induction ss as [|s ss IH]; cbn; [split; reflexivity|exact IH]. Qed.
+
+Lemma run_stages_describes ss : forall tr tr',
+  Forall (fun s => updating s = true) ss -> (ss <> [] \/ describes tr) ->
+  run_stages ss (Ok tr) = Ok tr' -> describes tr'.
+Proof.
+  induction ss as [|s ss IH]; intros tr tr' Hall Hne H;
+    [rewrite run_stages_nil in H|rewrite run_stages_cons in H; cbn [rbind] in H].
+  - injection H as <-. destruct Hne as [Hne|Hd]; [contradiction|exact Hd].
+  - inversion Hall as [|? ? Hs Hrest]; subst.
+    destruct (run_stage s tr) as [tr1| |] eqn:E.
+    + eapply IH; [exact Hrest| |exact H]. right. eapply run_stage_describes; eassumption.
+    + rewrite (proj2 (run_stages_err ss)) in H. discriminate.
+    + rewrite (proj1 (run_stages_err ss)) in H. discriminate.
+Qed.
+
+Lemma ensure_basic_describes tr tr' :
+  describes tr \/ bare tr -> ensure_basic T stats tr = Ok tr' -> describes tr'.
+Proof.
+  unfold ensure_basic. intros [D|B] H.
+  - destruct D as (t & Ht & Hf & Hw & Hz). rewrite Hf, Hw, Hz in H. injection H as <-.
+    exists t. repeat split; assumption.
+  - destruct B as ((t & Ht) & Hf & Hw & Hz). rewrite Hf, Hw, Hz, Ht in H.
+    destruct (stats t) as [[f w] z] eqn:E. injection H as <-. exists t. cbn. rewrite E.
+    repeat split; reflexivity.
+Qed.
+
+Definition exact_opts (o : opts) : Prop := o_compressed o = false.
+
+Lemma stages_updating o : exact_opts o -> Forall (fun s => updating s = true) (stages_of o).
+Proof.
+  unfold exact_opts, stages_of. intros ->.
+  destruct (o_anneal o), (o_slice o), (o_slicereconf o), (o_reconf o); cbn; repeat constructor.
+Qed.
+
+(* recorded_costs_are_tree_costs, for the objectives that score the recorded figures *)
+Lemma basic_records_tree_costs em o b tr :
+  exact_opts o -> trial_fn em ObjBasic o b = Ok tr ->
+  tr = failed_trial \/ describes tr.
+Proof.
+  intros Ho H. unfold trial_fn, compute_score in H.
+  destruct (rbind (run_stages (stages_of o) (base_trial T b)) _) as [[tr0 x]| |] eqn:E.
+  - right. injection H as <-.
+    destruct (run_stages (stages_of o) (base_trial T b)) as [tr1| |] eqn:E1; cbn in E; try discriminate.
+    unfold score_fn in E.
+    destruct (ensure_basic T stats tr1) as [tr2| |] eqn:E2; cbn in E; try discriminate.
+    assert (D : describes tr2).
+    { eapply ensure_basic_describes; [|exact E2].
+      destruct b as [t| |]; cbn in E1.
+      - destruct (stages_of o) as [|s ss] eqn:Es.
+        + cbn in E1. injection E1 as <-. right. unfold bare. cbn. split; [eexists; reflexivity|repeat split; reflexivity].
+        + left. eapply (run_stages_describes (s :: ss)); [rewrite <- Es; apply stages_updating, Ho|left; discriminate|exact E1].
+      - rewrite (proj2 (run_stages_err _)) in E1. discriminate.
+      - rewrite (proj1 (run_stages_err _)) in E1. discriminate. }
+    destruct D as (t & Ht & Hf & Hw & Hz). rewrite Hf, Hw, Hz in E. injection E as <- <-.
+    exists t. unfold set_score. cbn. repeat split; assumption.
+  - left. injection H as <-. reflexivity.
+  - left. destruct em; try discriminate; injection H as <-; reflexivity.
+Qed.
+
+(* with LimitObjective the figures are those of the tree as soon as one post-processing
+   stage ran ... *)
+Lemma limit_records_tree_costs em o b tr :
+  exact_opts o -> stages_of o <> [] -> trial_fn em ObjLimit o b = Ok tr ->
+  tr = failed_trial \/ describes tr.
+Proof.
+  intros Ho Hne H. unfold trial_fn, compute_score in H.
+  destruct (rbind (run_stages (stages_of o) (base_trial T b)) _) as [[tr0 x]| |] eqn:E.
+  - right. injection H as <-.
+    destruct (run_stages (stages_of o) (base_trial T b)) as [tr1| |] eqn:E1; cbn in E; try discriminate.
+    assert (D : describes tr1).
+    { destruct b as [t| |]; cbn in E1.
+      - eapply run_stages_describes; [apply stages_updating, Ho|left; exact Hne|exact E1].
+      - rewrite (proj2 (run_stages_err _)) in E1. discriminate.
+      - rewrite (proj1 (run_stages_err _)) in E1. discriminate. }
+    unfold score_fn in E. destruct D as (t & Ht & Hf & Hw & Hz). rewrite Ht in E. injection E as <- <-.
+    exists t. unfold set_score. cbn. repeat split; assumption.
+  - left. injection H as <-. reflexivity.
+  - left. destruct em; try discriminate; injection H as <-; reflexivity.
+Qed.
+
+(* ... and absent otherwise: _maybe_report_result then raises KeyError (finding limit-objective-keyerror) *)
+Lemma limit_without_stage_has_no_costs em t :
+  exists tr, trial_fn em ObjLimit (mkOpts false false false false false) (Ok t) = Ok tr /\
+             t_flops tr = None /\ forall mts st s, report T mts st s tr = None.
+Proof.
+  eexists. split; [reflexivity|]. split; [reflexivity|]. intros. reflexivity.
+Qed.
+
+(* original_* are the figures of the path finder's tree, whatever ran afterwards *)
+Lemma originals_are_base ss : forall tr tr',
+  run_stages ss (Ok tr) = Ok tr' ->
+  (forall f, t_oflops tr = Some f -> t_oflops tr' = Some f) /\
+  (forall f, t_owrite tr = Some f -> t_owrite tr' = Some f) /\
+  (forall f, t_osize tr = Some f -> t_osize tr' = Some f).
+Proof.
+  induction ss as [|s ss IH]; intros tr tr' H;
+    [rewrite run_stages_nil in H|rewrite run_stages_cons in H; cbn [rbind] in H].
+  - injection H as <-. repeat split; auto.
+  - destruct (run_stage s tr) as [tr1| |] eqn:E.
+    + apply IH in H. destruct H as (H1 & H2 & H3).
+      unfold run_stage in E. destruct (t_tree tr) as [t|]; [|discriminate].
+      destruct (updating s).
+      * destruct (post s t) as [t'| |]; cbn in E; try discriminate. injection E as <-.
+        unfold update_stats, set_originals in *. destruct (stats t) as [[f0 w0] z0], (stats t') as [[f1 w1] z1].
+        cbn in *. repeat split; intros f Hf; [apply H1|apply H2|apply H3]; rewrite Hf; reflexivity.
+      * destruct (post s t) as [t'| |]; cbn in E; try discriminate. injection E as <-. cbn in *.
+        repeat split; auto.
+    + rewrite (proj2 (run_stages_err ss)) in H. discriminate.
+    + rewrite (proj1 (run_stages_err ss)) in H. discriminate.
+Qed.
+
+Lemma first_stage_sets_originals s ss t tr' :
+  updating s = true ->
+  run_stages (s :: ss) (base_trial T (Ok t)) = Ok tr' ->
+  t_oflops tr' = Some (fst (fst (stats t))) /\ t_owrite tr' = Some (snd (fst (stats t))) /\
+  t_osize tr' = Some (snd (stats t)).
+Proof.
+  intros Hu H. rewrite run_stages_cons in H. unfold base_trial in H. cbn [rbind] in H.
+  unfold run_stage in H. cbn [t_tree] in H. rewrite Hu in H.
+  destruct (post s t) as [t'| |]; cbn [rbind] in H.
+  - apply originals_are_base in H. destruct H as (H1 & H2 & H3).
+    unfold update_stats, set_originals in *. destruct (stats t) as [[f0 w0] z0], (stats t') as [[f1 w1] z1]. cbn in *.
+    repeat split; [apply H1|apply H2|apply H3]; reflexivity.
+  - rewrite (proj2 (run_stages_err ss)) in H. discriminate.
+  - rewrite (proj1 (run_stages_err ss)) in H. discriminate.
+Qed.
+
+End PipelineFacts.
